@@ -138,7 +138,7 @@ def r1_state_rows(ctx: Context, pl: Plumbing) -> None:
             continue
         p = r["save_param"]
         src_ok = r["source"] == want[p]
-        uses = r["sink"] or []
+        uses = [c04.strip_copy_via(u, r.get("local") or "") for u in (r["sink"] or [])]
         sink_ok = any(u == f"store:{want[p]}" or (u.startswith("ctor:") and want[p] in ctor_paths.get(u[5:], set())) for u in uses)
         wrap_ok = bool(r["storage"]) and all(w in ("id",) for _, _, w in r["storage"]) and all(w == "id" for w in r.get("load_wrappers", []))
         ctx.check(src_ok and sink_ok and wrap_ok and r["load_pos"] and len(r["load_pos"]) == 1, "R1.state-capture", f"field:{p}",
